@@ -722,7 +722,7 @@ pub fn begin_block_regs() {
 pub fn log(kind: Kind, a: u64, b: u64, c: u64) {
     let mm = m();
     // write trap (see `set_trap`); never taken unless a harness armed it
-    if mm.trap != Kind::None && mm.trap == kind {
+    if mm.trap as u8 != 0 && mm.trap as u8 == kind as u8 {
         trap_hit();
     }
     if mm.log_len < LOG_CAP {
